@@ -164,6 +164,15 @@ func runTapeFile(bin, tp string, extraEnv ...string) (*nativeOutcome, error) {
 	if strings.Contains(buf.String(), "WARNING: DATA RACE") {
 		return &nativeOutcome{Fail: "race detector: DATA RACE"}, nil
 	}
+	if i := strings.Index(buf.String(), "fatal error: "); i >= 0 {
+		// unrecoverable runtime failure (out of memory, concurrent map writes, stack overflow): the
+		// process died inside the harness
+		msg := buf.String()[i:]
+		if j := strings.IndexByte(msg, '\n'); j >= 0 {
+			msg = msg[:j]
+		}
+		return &nativeOutcome{Panic: msg}, nil
+	}
 	if dbg := os.Getenv("VERIF_KEEP_FAILED"); dbg != "" {
 		os.MkdirAll(dbg, 0o755)
 		b, _ := os.ReadFile(tp)
